@@ -2,6 +2,7 @@ import TenpyModel.C19.P2_MultiUnique
 import TenpyModel.C19.P2_PairsInst
 import TenpyModel.C19.P2_ValuesU
 import TenpyModel.C19.P2_Masked2
+import TenpyModel.C19.P2_Helical3
 /-!
 # C19 — property theorems, second part
 
@@ -90,6 +91,70 @@ example :
     show Target l [5, -2] [1, 0] 2
     exact ⟨[-1], by simp [Wraps], by decide, by decide, by decide, by decide⟩
 
+
+/-- **The hypothesis `NoShiftOpenX` of `C19_multi_couplings_exact` is needed** (known finding, corpus
+case `shifted-bc-open-x-multi-missing`): `Square(2, 2, bc=['open', 1])`, operators at `dx = (0,0)` and
+`(1,1)`: the placement with base cell `(1, 1)` is admissible (sites `3 = (1,1)` and `2 = (1,0)`: going
+around `y` shifts `x` by `-1`), but no row `[3, 2]` is returned — the box has `x`-extent `2 - 1 = 1`. -/
+theorem C19_multi_couplings_counterexample :
+    let l := Lat.mk' [2, 2] 1 [true, false] (some [1]) true (castRows (cstyle [2, 2, 1]))
+    let ops : List (List Int × Nat) := [([0, 0], 0), ([1, 1], 0)]
+    MultiPlacement l ops [1, 1] [3, 2] ∧ [3, 2] ∉ (possibleMultiCouplings l ops).rows.map (·.1) := by
+  intro l ops
+  have hg : GridOrder ([2, 2] ++ [1]) (castRows (cstyle [2, 2, 1])) := gridOrder_of_perm (List.Perm.refl _)
+  have ok : CoupOK l := coupOK_mk' [2, 2] 1 _ _ true _ (by decide) (by decide) (by decide) hg rfl
+  constructor
+  · refine ⟨rfl, List.Forall₂.cons ?_ (List.Forall₂.cons ?_ List.Forall₂.nil)⟩
+    · refine ⟨[1, 1], 0, 3, ?_, ⟨3, rfl, by decide, by decide⟩, by decide⟩
+      show Target l [1, 1] [1, 1] 0
+      exact ⟨[0], by simp [Wraps], by decide, by decide, by decide, by decide⟩
+    · refine ⟨[1, 0], 0, 2, ?_, ⟨2, rfl, by decide, by decide⟩, by decide⟩
+      show Target l [2, 2] [1, 0] 0
+      exact ⟨[1], by simp [Wraps], by decide, by decide, by decide, by decide⟩
+  · intro hmem
+    obtain ⟨⟨mps, li⟩, hrow, hmps⟩ := List.mem_map.1 hmem
+    simp only at hmps
+    subst hmps
+    obtain ⟨_, hin, raws, hf, hm⟩ := (C19_multi_couplings_exact_box l ok ops (by decide) _ li).1 hrow
+    have hcs : multiCouplingShape l (ops.map (·.1)) = ([1, 2], [0, 0]) := by decide
+    rw [hcs] at hin hf
+    have hf' : List.Forall₂ (fun (op : List Int × Nat) raw => OpSpec l (vadd li (vsub op.1 [0, 0])) op.2 raw)
+        [([0, 0], 0), ([1, 1], 0)] raws := hf
+    cases hf' with
+    | @cons op raw ops' raws' hop htl =>
+      have hfin : l.finite = true := rfl
+      have hraw : raw = 3 := by
+        have := congrArg (fun L => L.headD 0) hm
+        simp [normalizeRow, hfin] at this
+        exact this.symm
+      subst hraw
+      obtain ⟨y, k0, j0, ht, ⟨k, rfl, hk, hrowk⟩, hj⟩ := hop
+      have hk3 : k = 3 := by
+        simp only [hfin, if_true] at hj
+        omega
+      subst hk3
+      match li, hin with
+      | [a, b], hin =>
+        obtain ⟨a0, a1, b0, b1, _⟩ := hin
+        have ha : a = 0 := by omega
+        subst ha
+        have hy : y = [1, 1] := by
+          have : l.order.getD 3 [] = [1, 1, 0] := by decide
+          rw [this] at hrowk
+          have h2 : y ++ [(0 : Int)] = [1, 1] ++ [0] := by simpa using hrowk.symm
+          exact List.append_cancel_right h2
+        subst hy
+        have ht' : Target l [0, b] [1, 1] k0 := by simpa [vadd, vsub] using ht
+        obtain ⟨ks, hw, h1, _, _, h4⟩ := ht'
+        have hk0 : k0 = 0 := h4 rfl
+        subst hk0
+        match ks, hw with
+        | [k1], hw =>
+          obtain ⟨w1, _⟩ := hw
+          have hsh : l.bcShift = some [1] := rfl
+          rw [hsh] at h1
+          simp only [dot, Option.getD_some] at h1
+          omega
 
 /-! ## `mps2lat_values` with `u` -/
 
@@ -240,6 +305,93 @@ example :
   obtain ⟨data, h1, _, h3, _⟩ := C19_values_masked l ok ([10, 11] : List Nat) [-1, 1]
     (fun i _ hf => by cases hf) (by decide) rfl
   exact ⟨data, h1, (h3 0 (by decide)).2⟩
+
+/-! ## `HelicalLattice`: translation invariance -/
+
+/-- **Translation invariance behind `HelicalLattice`.**  For the regular lattice that
+`HelicalLattice.__init__` accepts (`HelicalReg`: 2D, `bc_MPS='infinite'`, periodic, `bc_shift = -1`,
+an order passing the assertions of `_ordering_helical`; any `Lx, Ly`, any unit cell), the MPS index of
+site `u` of the unwrapped cell `(X0, X1)` is the linear function `(X0 Ly + X1) Lu + w(u)`
+(`HelicalReg.opSpec_linear`), hence the couplings of the infinite system (`InfCoupling`: all translates
+by MPS unit cells of the admissible couplings, as in `C19_couplings_exact_infinite`) are invariant under
+translation by ANY number `t` of lattice unit cells (`Lu` MPS sites each) along the helix. -/
+theorem C19_helical_translation (l : Lat) (Lx Ly : Nat) (H : HelicalReg l Lx Ly) (u1 u2 : Nat) (d0 d1 : Int)
+    (i j t : Int) (h : InfCoupling l u1 u2 [d0, d1] i j) :
+    InfCoupling l u1 u2 [d0, d1] (i + t * l.Lu) (j + t * l.Lu) :=
+  H.translate u1 u2 d0 d1 i j t h
+
+/-- **`HelicalLattice.possible_couplings` is exact**: with `N_unit_cells = n ≤ Lx Ly` lattice cells
+per MPS unit cell the listed pairs are exactly the couplings of the infinite system with
+`0 ≤ min(i, j) < n Lu`; and every coupling of the infinite system has exactly one translate by whole
+helical unit cells (`n Lu` sites) in that range — by `C19_helical_translation` that translate is a
+coupling, so every orbit is listed exactly once. -/
+theorem C19_helical_couplings_exact (l : Lat) (Lx Ly : Nat) (H : HelicalReg l Lx Ly) (n : Nat) (hn : 0 < n)
+    (hnle : n ≤ Lx * Ly) (u1 u2 : Nat) (hu1 : u1 < l.Lu) (hu2 : u2 < l.Lu) (d0 d1 : Int) :
+    (∀ i j : Int, (i, j) ∈ (((mkHelical l n).possibleCouplings u1 u2 [d0, d1]).rows.map (fun r => (r.1, r.2.1))) ↔
+      InfCoupling l u1 u2 [d0, d1] i j ∧ 0 ≤ min i j ∧ min i j < ((n * l.Lu : Nat) : Int)) ∧
+    (∀ i j : Int, InfCoupling l u1 u2 [d0, d1] i j → ∃ t : Int,
+      (i + t * ((n * l.Lu : Nat) : Int), j + t * ((n * l.Lu : Nat) : Int)) ∈
+        (((mkHelical l n).possibleCouplings u1 u2 [d0, d1]).rows.map (fun r => (r.1, r.2.1))) ∧
+      ∀ t' : Int, (i + t' * ((n * l.Lu : Nat) : Int), j + t' * ((n * l.Lu : Nat) : Int)) ∈
+        (((mkHelical l n).possibleCouplings u1 u2 [d0, d1]).rows.map (fun r => (r.1, r.2.1))) → t' = t) := by
+  have hdx : ([d0, d1] : List Int).length = l.Ls.length := by rw [H.hLs]; rfl
+  have hx : l.bc.headD false = false := by rw [H.hbc]; rfl
+  have hLu := H.lu_pos
+  have hNle : ((n * l.Lu : Nat) : Int) ≤ l.nSites := by
+    rw [H.ok.toLatOK.sites, H.order_length]
+    exact_mod_cast Nat.mul_le_mul_right _ hnle
+  have hmem : ∀ i j : Int, (i, j) ∈ (((mkHelical l n).possibleCouplings u1 u2 [d0, d1]).rows.map (fun r => (r.1, r.2.1))) ↔
+      InfCoupling l u1 u2 [d0, d1] i j ∧ 0 ≤ min i j ∧ min i j < ((n * l.Lu : Nat) : Int) := by
+    intro i j
+    constructor
+    · intro h
+      obtain ⟨r, hr, he⟩ := List.mem_map.1 h
+      obtain ⟨h1, h2, h3⟩ := (C19_helical_couplings l H.ok H.hf n u1 u2 hu1 hu2 _ hdx r).1 hr
+      have hp : (i, j) ∈ couplingPairs l u1 u2 [d0, d1] := List.mem_map.2 ⟨r, h1, he⟩
+      obtain ⟨i0, j0, k0, m, ha, e1, e2, _, _⟩ :=
+        (C19_couplings_exact_infinite l H.ok H.hf hx u1 u2 hu1 hu2 _ hdx i j).1 hp
+      have hi : r.1 = i := congrArg Prod.fst he
+      have hj : r.2.1 = j := congrArg Prod.snd he
+      rw [hi, hj] at h2 h3
+      exact ⟨⟨i0, j0, k0, m, ha, e1, e2⟩, h3, h2⟩
+    · rintro ⟨⟨i0, j0, k0, m, ha, e1, e2⟩, h0, h1⟩
+      have hp : (i, j) ∈ couplingPairs l u1 u2 [d0, d1] :=
+        (C19_couplings_exact_infinite l H.ok H.hf hx u1 u2 hu1 hu2 _ hdx i j).2
+          ⟨i0, j0, k0, m, ha, e1, e2, h0, by omega⟩
+      obtain ⟨r, hr, he⟩ := List.mem_map.1 hp
+      have hi : r.1 = i := congrArg Prod.fst he
+      have hj : r.2.1 = j := congrArg Prod.snd he
+      refine List.mem_map.2 ⟨r, (C19_helical_couplings l H.ok H.hf n u1 u2 hu1 hu2 _ hdx r).2 ⟨hr, ?_, ?_⟩, he⟩
+      · rw [hi, hj]; exact h1
+      · rw [hi, hj]; exact h0
+  refine ⟨hmem, ?_⟩
+  intro i j hij
+  have hpos : (0 : Int) < ((n * l.Lu : Nat) : Int) := by
+    have : 0 < n * l.Lu := Nat.mul_pos hn hLu
+    exact_mod_cast this
+  obtain ⟨t, ht, huniq⟩ := unique_cell_shift i j _ hpos
+  refine ⟨t, (hmem _ _).2 ⟨?_, ht⟩, fun t' ht' => huniq t' ((hmem _ _).1 ht').2⟩
+  have := C19_helical_translation l Lx Ly H u1 u2 d0 d1 i j (t * n) hij
+  have e : t * (n : Int) * (l.Lu : Int) = t * ((n * l.Lu : Nat) : Int) := by push_cast; ring
+  rwa [e] at this
+
+/-- Non-vacuity: the 2x2 square lattice with `bc=['periodic', -1]`, C-style order, satisfies the
+hypotheses; `(0, 1)` is a nearest-neighbour coupling along `y`; translated by one site it becomes
+`(1, 2)` — the bond from `(0, 1)` around the cylinder to `(1, 0)`, which exists because of the shift. -/
+example :
+    let l := Lat.mk' [2, 2] 1 [false, false] (some [-1]) false (castRows (cstyle [2, 2, 1]))
+    HelicalReg l 2 2 ∧ InfCoupling l 0 0 [0, 1] 0 1 ∧ InfCoupling l 0 0 [0, 1] 1 2 := by
+  intro l
+  have hg : GridOrder ([2, 2] ++ [1]) (castRows (cstyle [2, 2, 1])) := gridOrder_of_perm (List.Perm.refl _)
+  have ok : CoupOK l := coupOK_mk' [2, 2] 1 _ _ false _ (by decide) (by decide) (by decide) hg rfl
+  have H : HelicalReg l 2 2 := ⟨ok, rfl, rfl, rfl, rfl, by decide⟩
+  have h01 : InfCoupling l 0 0 [0, 1] 0 1 := by
+    refine ⟨0, 1, 0, 0, ⟨[0, 0], [0, 1], ⟨0, rfl, by decide, by decide⟩, ⟨1, rfl, by decide, by decide⟩, ?_⟩,
+      by simp, by simp⟩
+    show Target l [0, 1] [0, 1] 0
+    exact ⟨[0], by simp [Wraps], by decide, by decide, by decide, by decide⟩
+  have h12 := C19_helical_translation l 2 2 H 0 0 0 1 0 1 1 h01
+  exact ⟨H, h01, h12⟩
 
 /-! ## predefined neighbour lists over all of `ℤ^dim` -/
 section PairsAll
